@@ -88,3 +88,32 @@ Example C05_nonvacuous :
   | None => False
   end.
 Proof. vm_compute. reflexivity. Qed.
+
+(* ---- the main theorem applied: every hypothesis of C05_apply_ordered discharged on the document and patch
+   of C05_nonvacuous (add of a new member, replace, remove, add onto an existing member; number literals that
+   no float holds).  The conclusion is an EQUALITY of ordered values: z, b, a keep their positions and z its
+   literal, c is gone, the new member n is last. ---- *)
+From JP Require PointerDomain.
+Definition C05_ex_doc := B "{""z"":12345678901234567890123,""b"":1.0,""c"":0,""a"":1.50}".
+Definition C05_ex_patch := B "[{""op"":""add"",""path"":""/n"",""value"":2},{""op"":""replace"",""path"":""/b"",""value"":-0},{""op"":""remove"",""path"":""/c""},{""op"":""add"",""path"":""/a"",""value"":1e400}]".
+Definition C05_ex_o := mkOpts true 0 false false true [] None.
+Definition C05_ex_t : tjson := match parse C05_ex_doc with Some t => t | None => TNull end.
+Definition C05_ex_p : list operation := match api_decode C05_ex_patch with Some p => p | None => [] end.
+Definition C05_ex_result : ojson :=
+  OObj [(B "z", ONum (B "12345678901234567890123")); (B "b", ONum (B "-0")); (B "a", ONum (B "1e400")); (B "n", ONum (B "2"))].
+
+Example C05_main_theorem_applies :
+  exists n, api_apply C05_ex_o [] C05_ex_p C05_ex_doc = ROut (output C05_ex_o [] (render (o_esc C05_ex_o) n)) /\
+            aval n = C05_ex_result /\ ngood n.
+Proof.
+  pose proof (C05_apply_ordered C05_ex_o [] C05_ex_p C05_ex_doc C05_ex_t) as H.
+  assert (R : rfc_apply (dia C05_ex_o) (den C05_ex_t) (map den_op C05_ex_p) = Done C05_ex_result) by (vm_compute; reflexivity).
+  rewrite R in H. apply H.
+  - repeat split.
+  - vm_compute; reflexivity.
+  - reflexivity.
+  - vm_compute; reflexivity.
+  - apply (PointerDomain.decoded_in_domain_op_dom C05_ex_patch); vm_compute; reflexivity.
+  - vm_compute; reflexivity.
+Qed.
+Print Assumptions C05_main_theorem_applies.
